@@ -8,6 +8,8 @@ use crate::json::J;
 
 pub mod c01;
 pub mod c08;
+pub mod c18;
+pub mod hostileprops;
 pub mod unicodeprops;
 pub mod metaprops;
 pub mod metaprops2;
@@ -84,6 +86,10 @@ pub fn monitor(id: &str) -> Option<Box<dyn Monitor>> {
         "C20" => Box::new(metaprops2::C20),
         "C09" => Box::new(unicodeprops::C09),
         "C10" => Box::new(unicodeprops::C10),
+        "C05" => Box::new(hostileprops::C05),
+        "C06" => Box::new(hostileprops::C06),
+        "C07" => Box::new(hostileprops::C07),
+        "C18" => Box::new(c18::C18),
         "C02" => Box::new(refprops::C02),
         "C03" => Box::new(refprops::C03),
         "C11" => Box::new(refprops::C11),
